@@ -4,13 +4,14 @@
 #include "verif.h"
 #include <libcdsBasics.h>
 #include "utils/Utils.h"
+#include "iterators/IteratorDictString.h"
 #include "iterators/IteratorDictStringPlain.h"
 
-#ifndef N
-#define N 2          // number of strings
+#ifndef NSTR
+#define NSTR 2          // number of strings
 #endif
-#ifndef L
-#define L 2          // maximal string length
+#ifndef LMAX
+#define LMAX 2          // maximal string length
 #endif
 #ifndef CMIN
 #define CMIN 0x02    // byte range of the validity predicate
@@ -19,23 +20,23 @@
 #define CMAX 0xFE
 #endif
 
-// S: N strings, the i-th of symbolic length 1..L (or of the fixed length LENV[i] when the
+// S: NSTR strings, the i-th of symbolic length 1..LMAX (or of the fixed length LENV[i] when the
 // obligation enumerates the shape), bytes CMIN..CMAX, strictly increasing in unsigned-byte
 // order.  Returns the NUL-separated packing that IteratorDictStringPlain consumes.
-static uchar *mk_input(uchar s[N][L + 2], uint lens[N], size_t *total) {
+static uchar *mk_input(uchar s[NSTR][LMAX + 2], uint lens[NSTR], size_t *total) {
 #ifdef LENV
-  static const uint fixedlens[N] = LENV;
+  static const uint fixedlens[NSTR] = LENV;
 #endif
   size_t tot = 0;
-  for (int i = 0; i < N; i++) {
+  for (int i = 0; i < NSTR; i++) {
 #ifdef LENV
     uint len = fixedlens[i];
 #else
     uint len = nondet_uchar();
-    verif_assume(len >= 1 && len <= L);
+    verif_assume(len >= 1 && len <= LMAX);
 #endif
-    for (int j = 0; j < L + 2; j++) s[i][j] = 0;
-    for (int j = 0; j < L; j++) {
+    for (int j = 0; j < LMAX + 2; j++) s[i][j] = 0;
+    for (int j = 0; j < LMAX; j++) {
       if ((uint)j < len) {
         uchar c = nondet_uchar();
         verif_assume(c >= CMIN && c <= CMAX);
@@ -45,10 +46,10 @@ static uchar *mk_input(uchar s[N][L + 2], uint lens[N], size_t *total) {
     lens[i] = len;
     tot += len + 1;
   }
-  for (int i = 0; i + 1 < N; i++) verif_assume(strcmp((char *)s[i], (char *)s[i + 1]) < 0);
+  for (int i = 0; i + 1 < NSTR; i++) verif_assume(strcmp((char *)s[i], (char *)s[i + 1]) < 0);
   uchar *buf = new uchar[tot];
   size_t p = 0;
-  for (int i = 0; i < N; i++) {
+  for (int i = 0; i < NSTR; i++) {
     for (uint j = 0; j <= lens[i]; j++) buf[p + j] = s[i][j];
     p += lens[i] + 1;
   }
